@@ -981,7 +981,7 @@ def run(chk: Check) -> None:
     corr_rename(chk, rng, n, batch)
     corr_materialize(chk, rng, n, batch)
     chk.log(f"real helper functions driven at {round(time.time() - chk.t0, 1)} s")
-    res = corr_programs(chk, rng, 700 if thorough else 110, batch)
+    res = corr_programs(chk, rng, 2500 if thorough else 250, batch)
     chk.log(f"programs exported at {round(time.time() - chk.t0, 1)} s")
     bad = batch.run()          # the single Lean driver invocation of this run
     chk.log(f"Lean driver answered {len(batch.lines)} requests at {round(time.time() - chk.t0, 1)} s")
@@ -1014,7 +1014,7 @@ def run(chk: Check) -> None:
     ]
     chk.coverage["rule"] = (
         "tables: complete finite domains (exhaustive). Helper correspondences: seeded small graphs / name lists "
-        "(non-trivial = something unused / a request present). Programs: 18 directed cases + seeded programs "
+        "(non-trivial = something unused / a request present). Programs: 18 directed cases + 250 (quick) / 2500 (thorough) seeded programs "
         "(1-3 inputs of 9 kinds, used/unused, 1-4 result leaves of 14 kinds incl. duplicates, inputs, constants, "
         "complex; 5 result-tree shapes) x configurations (precision, NCHW in/out, valid/invalid input/output names); "
         "every case is distinct by its full description")
